@@ -1,4 +1,5 @@
 import GeoVerif.Lemmas.Plant
+import GeoVerif.Lemmas.CodeIntegrate
 /-!
 # C02 — Energy flows balance at every time step and over every year
 
@@ -90,5 +91,46 @@ theorem remaining_telescopes (init : Rat) (E : List Rat) (y : Nat) (hy : y < E.l
 /-- non-vacuity: one year, four steps (five samples), rising power -/
 example : integrateSlice [1, 2, 3, 4, 5, 6] 0 4 (9/10) = 8760 / 4 * (3/2 + 5/2 + 7/2 + 9/2) * 1000 * (9/10) := by
   decide +kernel
+
+/-! ## Tie by translation
+`Generated/Code.lean` holds the transcription of the current source of `SurfacePlant.integrate_time_series_slice` — the slice
+`series[i·n : (i+1)·n + 1]`, the one-sample extrapolation, `np.trapz(…, dx = 1/steps · 365 · 24)` (`tools/py2lean.py`; `np.trapz` is
+given its definition `dx · Σ (y_j + y_{j+1})/2` in `Model/Py.lean`).  It is the model `integrateSlice` for every series, year index,
+number of time steps per year and utilisation factor; the theorems above about yearly integration therefore speak about the code as written. -/
+theorem code_integrate_is_model (series : List Rat) (i n : Nat) (u : Rat) :
+    Code.integrate_time_series_slice series (i : Int) (n : Int) u = integrateSlice series i n u := code_integrate_eq series i n u
+
+/-- in the source as written, annual net electricity is annual gross minus annual pumping energy, for every year and every pair of series -/
+theorem code_annual_net (gross pump : List Rat) (hl : gross.length = pump.length) (i n : Nat) (u : Rat) :
+    Code.integrate_time_series_slice ((List.range gross.length).map (fun k => netElectricity (gross.getD k 0) (pump.getD k 0))) (i : Int) (n : Int) u =
+      Code.integrate_time_series_slice gross (i : Int) (n : Int) u - Code.integrate_time_series_slice pump (i : Int) (n : Int) u := by
+  rw [code_integrate_eq, code_integrate_eq, code_integrate_eq]
+  unfold integrateSlice
+  simp only [List.length_map, List.length_range]
+  have hf : ∀ k, k < gross.length →
+      ((List.range gross.length).map (fun k => netElectricity (gross.getD k 0) (pump.getD k 0))).getD k 0 = gross.getD k 0 - pump.getD k 0 := by
+    intro k hk
+    simp [List.getD_eq_getElem?_getD, List.getElem?_range hk, netElectricity]
+  have hz : ∀ k, gross.length ≤ k →
+      ((List.range gross.length).map (fun k => netElectricity (gross.getD k 0) (pump.getD k 0))).getD k 0 = gross.getD k 0 - pump.getD k 0 := by
+    intro k hk
+    have h1 : gross.getD k 0 = 0 := by simp [List.getD_eq_getElem?_getD, List.getElem?_eq_none hk]
+    have h2 : pump.getD k 0 = 0 := by simp [List.getD_eq_getElem?_getD, List.getElem?_eq_none (hl ▸ hk)]
+    have h3 : ((List.range gross.length).map (fun k => netElectricity (gross.getD k 0) (pump.getD k 0))).getD k 0 = 0 := by
+      simp [List.getD_eq_getElem?_getD, List.getElem?_eq_none, hk]
+    rw [h1, h2, h3]; ring
+  have hall : (fun k => ((List.range gross.length).map (fun k => netElectricity (gross.getD k 0) (pump.getD k 0))).getD k 0) =
+      (fun k => gross.getD k 0 - pump.getD k 0) := by
+    funext k
+    by_cases hk : k < gross.length
+    · exact hf k hk
+    · exact hz k (Nat.le_of_not_lt hk)
+  rw [hall, ← hl]
+  exact integrateF_sub _ _ _ _ _ _
+
+/-- four quarterly samples of one year: 8760 h × the trapezoid mean × 1000 × utilisation -/
+example : Code.integrate_time_series_slice [1, 2, 3, 4, 5] 0 4 (9/10) = 8760 / 4 * (3/2 + 5/2 + 7/2 + 9/2) * 1000 * (9/10) := by decide +kernel
+/-- the last year's one-sample slice is extended by linear extrapolation -/
+example : Code.integrate_time_series_slice [1, 2, 3, 4, 5] 1 4 1 = 8760 * ((5 + 6) / 2) * 1000 := by decide +kernel
 
 end GeoVerif.C02
